@@ -65,6 +65,7 @@ class Res:
     """What one shard (or the whole run) covered."""
 
     MAX_FAILS_KEPT = 4000
+    MAX_KEPT_PER_SYMPTOM = 400
 
     def __init__(self):
         self.evals = 0            # executions run
@@ -74,6 +75,7 @@ class Res:
         self.nontrivial = set()   # hashes of distinct non-trivial cases (rule in the property module)
         self.fails = []           # dicts: case, symptom, detail, params, replay
         self.nfails = 0
+        self.kept_by_symptom = Counter()
         self.fail_index = {}      # case -> (symptom, params) for ALL failing cases (details only for the first MAX_FAILS_KEPT)
         self.samples = []
         self.outcomes = Counter()  # free-form outcome classes, for reading (vacuity detection)
@@ -88,7 +90,8 @@ class Res:
     def fail(self, case, symptom, detail='', params=None, replay=None, script=None):
         self.nfails += 1
         self.fail_index[case] = (symptom, params or {})
-        if len(self.fails) < self.MAX_FAILS_KEPT:
+        self.kept_by_symptom[symptom] += 1
+        if len(self.fails) < self.MAX_FAILS_KEPT and self.kept_by_symptom[symptom] <= self.MAX_KEPT_PER_SYMPTOM:  # a flood of one (known) symptom must not crowd out the details of another
             self.fails.append({'case': case, 'symptom': symptom, 'detail': str(detail)[:2000],
                                'params': params or {}, 'replay': replay, 'script': script})
 
@@ -102,8 +105,10 @@ class Res:
         self.traces += o.traces
         self.states |= o.states
         self.nontrivial |= o.nontrivial
-        room = self.MAX_FAILS_KEPT - len(self.fails)
-        self.fails.extend(o.fails[:max(room, 0)])
+        for fl in o.fails:
+            self.kept_by_symptom[fl['symptom']] += 1
+            if len(self.fails) < self.MAX_FAILS_KEPT and self.kept_by_symptom[fl['symptom']] <= self.MAX_KEPT_PER_SYMPTOM:
+                self.fails.append(fl)
         self.nfails += o.nfails
         self.fail_index.update(o.fail_index)
         for s in o.samples:
